@@ -798,6 +798,9 @@ class ExcAnalysis:
                 add("builtins.StopIteration")
             return out
         if ext in ("builtins.max", "builtins.min"):
+            par = getattr(call, "parent", None)
+            if isinstance(par, ast.IfExp) and par.body is call and call.args and norm_txt(par.test) == norm_txt(call.args[0]):
+                return out  # `max(xs) if xs else ...`
             if len(call.args) == 1 and not any(k.arg == "default" for k in call.keywords):
                 add(VE, f"{ext.split('.')[1]}(<possibly empty>)")
             return out
@@ -1251,6 +1254,10 @@ class ExcAnalysis:
         if pol == "all":
             return True
         return self._expr_tainted(st.test, self._tainted)
+
+
+def norm_txt(n: ast.AST) -> str:
+    return " ".join(ast.unparse(n).split())
 
 
 def _callee_name(c: ast.Call) -> str:
